@@ -1109,7 +1109,7 @@ func main() {
 	// pass 1: call sites with their held sets, iterated to a fixpoint of entry sets
 	openCallers := map[*types.Func]bool{}
 	for _, fi := range fnList {
-		if fi.obj.Exported() || valueUse[fi.obj] || implementsSomeInterface(fi.obj, ifaces) || fi.obj.Name() == "init" || fi.obj.Name() == "main" {
+		if exportedAPI(fi.obj) || valueUse[fi.obj] || implementsSomeInterface(fi.obj, ifaces) || fi.obj.Name() == "init" || fi.obj.Name() == "main" {
 			openCallers[fi.obj] = true
 		}
 	}
@@ -1773,4 +1773,24 @@ func inLoopStmt(fi *fnInfo, target ast.Node) bool {
 		return true
 	})
 	return in
+}
+
+// exportedAPI: callable by name from another package. An exported method of an unexported type is not
+// (other packages reach it only through an interface, which implementsSomeInterface covers)
+func exportedAPI(f *types.Func) bool {
+	if !f.Exported() {
+		return false
+	}
+	sig := f.Type().(*types.Signature)
+	if sig.Recv() == nil {
+		return true
+	}
+	t := sig.Recv().Type()
+	if p, ok := t.(*types.Pointer); ok {
+		t = p.Elem()
+	}
+	if nt, ok := t.(*types.Named); ok {
+		return nt.Obj().Exported()
+	}
+	return true
 }
